@@ -71,12 +71,12 @@ static Real sv(const SpatialVec& a) { return std::max(a[0].norm(), a[1].norm());
 
 // B must equal X_rel applied to A.  `what` prefixes the oracle names, `suffix` goes into the violation key.
 static void compareSnaps(verif::Run& run, const std::string& what, const std::string& suffix, const Snap& a, const Snap& b, const Transform& X_rel,
-                         bool sameSpeeds, const std::function<std::string()>& where, const std::function<std::string()>& rep) {
+                         bool sameSpeeds, const std::function<std::string()>& where, const std::function<std::string()>& rep, const std::vector<char>& loneParticle = std::vector<char>()) {
     const int nb = (int)a.X.size();
     const Rotation& R = X_rel.R();
     // every model carries >= 12 N of weight (lightest body 1.3 kg, |g| = 9.26): a transmitted reaction cannot be more accurate
     // than eps x that, even when the reaction itself is ~0 (Free joints), hence the floor of 10 on the reaction scale
-    double eR = 0, eP = 0, eV = 0, eA = 0, eF = 0, sP = 1, sV = 1e-2, sA = 1e-2, sF = 10;
+    double eR = 0, eP = 0, eV = 0, eA = 0, eF = 0, eFlone = 0, sP = 1, sV = 1e-2, sA = 1e-2, sF = 10; bool anyLone = false;
     for (int i = 0; i < nb; ++i) {
         sP = std::max(sP, a.X[i].p().norm()); sV = std::max(sV, sv(a.V[i])); sA = std::max(sA, sv(a.A[i])); sF = std::max(sF, sv(a.FM[i]));
     }
@@ -88,7 +88,8 @@ static void compareSnaps(verif::Run& run, const std::string& what, const std::st
         const SpatialVec Ve(R * a.V[i][0], R * a.V[i][1]), Ae(R * a.A[i][0], R * a.A[i][1]), Fe(R * a.FM[i][0], R * a.FM[i][1]);
         eV = std::max(eV, (double)sv(Ve - b.V[i]) / sV);
         eA = std::max(eA, (double)sv(Ae - b.A[i]) / sA);
-        eF = std::max(eF, (double)sv(Fe - b.FM[i]) / sF);
+        if (i < (int)loneParticle.size() && loneParticle[i]) { eFlone = std::max(eFlone, (double)sv(Fe - b.FM[i]) / sF); anyLone = true; }
+        else eF = std::max(eF, (double)sv(Fe - b.FM[i]) / sF);
     }
     const double cond = std::max(a.cond, b.cond);
     run.residual(what + "-pose-rotation", eR, TOL, where, rep, suffix);
@@ -96,6 +97,8 @@ static void compareSnaps(verif::Run& run, const std::string& what, const std::st
     run.residual(what + "-velocity", eV, TOL, where, rep, suffix);
     run.residual(what + "-acceleration", eA / cond, TOL_DYN, where, rep, suffix);
     run.residual(what + "-reaction", eF / cond, TOL_DYN, where, rep, suffix);
+    // the reaction of a body that is a lone-particle node in one member of the pair has its own key (notes/C06.md)
+    if (anyLone) run.residual(what + "-reaction-of-lone-particle-body", eFlone / cond, TOL_DYN, where, rep, "Translation");
     run.residual(what + "-kineticEnergy", std::abs(a.ke - b.ke) / std::max<Real>(std::abs(a.ke), 1e-4), TOL, where, rep, suffix);
     if (sameSpeeds) {
         double eu = 0, ed = 0, su = 1e-2, sd = 1e-2;
@@ -116,6 +119,13 @@ static std::string specsStr(const std::vector<mb::BodySpec>& specs, bool euler);
 static std::string specsStr_(const std::vector<mb::BodySpec>& specs, bool euler) { std::string m = euler ? "euler[" : "quat["; for (auto& b : specs) m += b.str() + " "; return m + "]"; }
 static std::string specsStr(const std::vector<mb::BodySpec>& specs, bool euler) { return specsStr_(specs, euler); }
 static std::string kd(const mb::BodySpec& b) { return std::string(mb::kindName(b.kind)) + (b.dir ? "-rev" : "-fwd"); }
+// A Translation leaf on Ground with identity frames is modelled by the lone-particle node, whose mobilizer reaction is judged under
+// its own key (the unchanged library leaves out the m*c x a torque of an offset mass centre there: notes/C06.md)
+static std::vector<char> loneParticleKey(const mb::Model& A, const mb::Model& B) {
+    std::vector<char> m(A.bodies.size(), 0);
+    for (const mb::Model* M : {&A, &B}) for (int b = 0; b < (int)M->bodies.size() && b < (int)m.size(); ++b) if (mb::nodeTypeName(*M, b).find("LoneParticle") != std::string::npos) m[b] = 1;
+    return m;
+}
 
 // ---------------------------------------------------------------- T1: quaternion <-> Euler
 // d/dt of every mobilizer transform implied by qdot: 4th-order difference of X_FM(q + t*qdot), Richardson pair
@@ -217,7 +227,7 @@ static void checkMirror(verif::Run& run, const std::vector<mb::BodySpec>& specs,
     if (same) { for (int i = 0; i < sa.getNQ(); ++i) same &= sa.getQ()[i] == sb.getQ()[i]; for (int i = 0; i < sa.getNU(); ++i) same &= sa.getU()[i] == sb.getU()[i]; }
     run.expect(same, "T2-harness-same-q-u-in-both-models", [&] { return "harness: table states differ between mirror and built-in at " + desc; }, rep);
     Snap pa = snapshot(*Ma, sa), pb = snapshot(*Mb, sb);
-    compareSnaps(run, "T2-mirror-vs-builtin", kd(specs[vi]), pb, pa, Transform(), true, where, rep);
+    compareSnaps(run, "T2-mirror-vs-builtin", kd(specs[vi]), pb, pa, Transform(), true, where, rep, loneParticleKey(*Ma, *Mb));
     // qdot as well (same coordinates)
     double e = 0, sc = 1e-2; const Vector& qa = sa.getQDot(); const Vector& qb = sb.getQDot();
     for (int i = 0; i < qa.size(); ++i) { sc = std::max(sc, std::abs(qb[i])); e = std::max(e, std::abs(qa[i] - qb[i])); }
@@ -279,14 +289,14 @@ static void checkRelocation(verif::Run& run, const std::vector<mb::BodySpec>& sp
     { std::string na = mb::nodeTypeName(*Ma, 0), nbn = mb::nodeTypeName(*Mb, 0); if (na != nbn) run.count("T4:base-node-instantiation-changed-by-relocation"); run.outcome(verif::hashStr(nbn)); }
     Snap pa = snapshot(*Ma, sa), pb = snapshot(*Mb, sb);
     static const char* rn[] = {"translation", "rotation", "both"};
-    compareSnaps(run, std::string("T4-relocation-") + rn[reloc], kd(specs[0]), pa, pb, X, true, where, rep);
+    compareSnaps(run, std::string("T4-relocation-") + rn[reloc], kd(specs[0]), pa, pb, X, true, where, rep, loneParticleKey(*Ma, *Mb));
 }
 
 int main(int argc, char** argv) {
     verif::Run run("C06", argc, argv);
     run.setDeadline(400, 2400);
     const bool th = run.thorough();
-    run.rule = "E3 over pairs: level A models (every KINDxDIRxFRAMES variant as base/middle/tip/fork-branch of a 3-body tree with companions {Pin,Ball,Free}^2; thorough adds level B for T1 and T4) x STATE(4) x four transformations: T1 quat<->euler conversion in both directions incl. round trip and identity conversion (all models); T2 Custom/FunctionBased mirror vs built-in (variants CustomPin, CustomBall, CustomTranslation, FBPin fwd/rev, FBPlanar fwd/rev) x COORD; T3 reversed vs forward through setQToFitTransform/setUToFitVelocity (variants with symmetric motion family: Pin, Slider, Cylinder, Planar, Gimbal, Bushing, Ball, Free, Translation, Screw) x COORD; T4 base inboard frame moved by {translation, rotation, both} x COORD; value set = seed%3 (thorough: all 3, the variant's mass kind rotating with it). distinct = distinct (transformation, model, coord, state, valueset); non-trivial = the pair really differs (T1: a quaternion-capable body is present)";
+    run.rule = "E3 over pairs: KIND = 19 built-in mobilizers, 5 Custom/FunctionBased mirrors with a constant hinge matrix, FunctionBased with nonlinear coordinate functions and 1..6 mobilities (FBN1..6), Custom helix slider with H(q) from X_FM and HDot from V_FM -- 58 KINDxDIR variants (engine/models.h); level A models (every KINDxDIRxFRAMES variant as base/middle/tip/fork-branch of a 3-body tree with companions {Pin,Ball,Free}^2; thorough adds level B for T1 and T4) x STATE(4) x four transformations: T1 quat<->euler conversion in both directions incl. round trip and identity conversion (all models); T2 Custom/FunctionBased mirror vs built-in (variants CustomPin, CustomBall, CustomTranslation, FBPin fwd/rev, FBPlanar fwd/rev) x COORD; T3 reversed vs forward through setQToFitTransform/setUToFitVelocity (variants with symmetric motion family: Pin, Slider, Cylinder, Planar, Gimbal, Bushing, Ball, Free, Translation, Screw) x COORD; T2 additionally for every mirror alone on Ground x all 8 frame pairs (level S) and next to a Ground-attached companion (level G); T4 base inboard frame(s) moved by {translation, rotation, both} x COORD on level S (all 8 frame pairs; lone-particle leaves), level G and level A; value set = seed%3 (thorough: all 3, the variant's mass kind rotating with it). distinct = distinct (transformation, model, coord, state, valueset); non-trivial = the pair really differs (T1: a quaternion-capable body is present)";
     run.assumptions = {"continuous values only from the fixed tables in engine/models.h and the constants in this harness", "trees of at most 3 mobilized bodies",
                        "identical applied loads = uniform gravity + a point force and a torque on every body (+ mobility forces where both members share the generalized speeds: T1, T2, T4)",
                        "T3 is restricted to mobilizer kinds whose relative-motion family is direction-symmetric (a reversed Ellipsoid, Universal, BendStretch, SphericalCoords, LineOrientation, FreeLine, CantileverFreeBeam is a different physical joint); FunctionBased reversed is compared with the built-in reversed in T2",
@@ -294,7 +304,7 @@ int main(int argc, char** argv) {
     std::vector<int> valueSets = th ? std::vector<int>{0, 1, 2} : std::vector<int>{(int)(((run.seed % 3) + 3) % 3)};
     // the variant's mass kind: quick = seed%3; thorough = (value set + seed)%3 so that all three kinds occur (companions always carry 0,1,2)
     const int nMass = 1; const int seedMass = (int)(((run.seed % 3) + 3) % 3);
-    mb::LevelA A; mb::LevelB B;
+    mb::LevelA A; mb::LevelB B; mb::LevelS S; mb::LevelG G;
     auto variantOf = [](int64_t levelAIndex) { int role = (int)((levelAIndex / 9) % 4); return role == 0 ? 0 : role == 2 ? 2 : 1; };
     auto guarded = [&](const std::string& name, const std::string& desc, const std::function<void()>& fn) {
         if (run.verbose) printf("%s\n", desc.c_str());
@@ -328,6 +338,21 @@ int main(int argc, char** argv) {
     };
     selected("T2-mirror", [](const mb::BodySpec& b) { return builtInOf(b.kind) >= 0; },
              [&](const std::vector<mb::BodySpec>& sp, int vi, bool e, int st, int vs, const std::string& desc) { checkMirror(run, sp, vi, e, st, vs, desc); });
+    // T2 on Ground-attached leaves: the mirror alone on Ground with ALL 8 frame pairs (level S: the "one part only" pairs decide the
+    // <noX_MB,noR_PF> flags of the user-defined node) and next to a Ground-attached companion (level G)
+    auto mirrorsOf = [&](const std::string& name, int64_t nModels, std::function<std::vector<mb::BodySpec>(int64_t, int)> specsOf, std::function<int(int64_t)> variantIdx) {
+        std::vector<int64_t> models;
+        for (int64_t i = 0; i < nModels; ++i) { auto sp = specsOf(i, 0); if (builtInOf(sp[variantIdx(i)].kind) >= 0) models.push_back(i); }
+        verif::Odometer od; od.dim("state", 4); od.dim("coord", 2); od.dim("mass", nMass); od.dim("valueset", (int64_t)valueSets.size()); od.dim("model", (int64_t)models.size());
+        run.parallel(name, od.size(), [&](int64_t idx) {
+            auto d = od.digits(idx); const int64_t mi = models[d[4]]; auto specs = specsOf(mi, (d[2] + seedMass + (th ? valueSets[d[3]] : 0)) % 3);
+            std::string desc = name + " " + od.describe(idx) + " index=" + std::to_string(mi) + " " + specsStr(specs, d[1] == 1) + " vs=" + std::to_string(valueSets[d[3]]);
+            guarded(name, desc, [&] { checkMirror(run, specs, variantIdx(mi), d[1] == 1, d[0], valueSets[d[3]], desc); });
+            if (idx % 3001 == 0) run.sample(desc);
+        });
+    };
+    mirrorsOf("T2-mirror-S", S.size(), [&](int64_t i, int m) { return S.specs(i, m); }, [](int64_t) { return 0; });
+    mirrorsOf("T2-mirror-G", G.size(), [&](int64_t i, int m) { return G.specs(i, m); }, [](int64_t i) { return ((i / 3) % 2) == 0 ? 1 : 0; });
     selected("T3-reversed", [](const mb::BodySpec& b) { return b.dir == 1 && symmetricKind(b.kind); },
              [&](const std::vector<mb::BodySpec>& sp, int vi, bool e, int st, int vs, const std::string& desc) { checkReversed(run, sp, vi, e, st, vs, desc); });
 
@@ -342,6 +367,8 @@ int main(int argc, char** argv) {
             if (idx % 20011 == 0) run.sample(desc);
         });
     };
+    t4("T4-relocation-S", S.size(), [&](int64_t i, int m) { return S.specs(i, m); });     // Ground-attached leaves (lone-particle fast path), all 8 frame pairs
+    t4("T4-relocation-G", G.size(), [&](int64_t i, int m) { return G.specs(i, m); });     // forests: every Ground-attached body is relocated
     t4("T4-relocation-A", A.size(), [&](int64_t i, int m) { return A.specs(i, m); });
     if (th) t4("T4-relocation-B", B.size(), [&](int64_t i, int m) { return B.specs(i, m); });
     return run.finish();
